@@ -114,3 +114,120 @@ def tokenize_graph(text):
         else:
             raise Untokenizable(text)
     return toks
+
+
+# ----------------------------------------------------------------------------------------------
+# fragment texts
+# ----------------------------------------------------------------------------------------------
+def ftok(k, v="", n=0, a=None, el="", ar=False, ch=0, hc=0):
+    return {"k": k, "v": v, "n": n, "a": list(a or []), "el": el, "ar": ar, "ch": ch, "hc": hc}
+
+
+def render_fragment_tokens(tokens):
+    out = []
+    for t in tokens:
+        k = t["k"]
+        if k == "A":
+            if t["a"]:
+                assert t["v"].endswith("]")
+                out.append(t["v"][:-1] + "".join(";" + render_entry(e) for e in t["a"]) + "]")
+            else:
+                out.append(t["v"])
+        elif k == "D":
+            out.append("[" + t["v"] + t["el"] + "]")
+        elif k == "B":
+            out.append(t["v"])
+        elif k == "R":
+            out.append(str(t["n"]) if t["v"] == "d" else "%%%02d" % t["n"])
+        elif k in "()":
+            out.append(k)
+        elif k == "Z":
+            out.append(t["v"])
+        else:
+            raise ValueError(k)
+    return "".join(out)
+
+
+_ORGANIC = ["Cl", "Br", "B", "C", "N", "O", "P", "S", "F", "I"]
+_AROM = ["b", "c", "n", "o", "p", "s"]
+_BRACKET = re.compile(r"\[(\d+)?([A-Z][a-z]?|[a-z]|\*)(@{1,2})?(H\d?)?(\+\d?|-\d?|\+\++|--+)?(?::\d+)?\]")
+
+
+def _parse_bracket_atom(body_txt):
+    """'[NH3+]' -> (el, aromatic, charge, hcount) or raise."""
+    m = _BRACKET.fullmatch(body_txt)
+    if not m:
+        raise Untokenizable(body_txt)
+    sym = m.group(2)
+    ar = sym.islower()
+    el = sym.capitalize() if sym != "*" else "*"
+    h = m.group(4)
+    hc = 0 if not h else (1 if h == "H" else int(h[1:]))
+    c = m.group(5)
+    if not c:
+        ch = 0
+    elif c in ("+", "-"):
+        ch = 1 if c == "+" else -1
+    elif c[1:].isdigit():
+        ch = int(c[1:]) * (1 if c[0] == "+" else -1)
+    else:
+        ch = len(c) * (1 if c[0] == "+" else -1)
+    return el, ar, ch, hc
+
+
+def tokenize_fragment(text, coarse=False):
+    """Tokenize a fragment text (the part behind '#name=')."""
+    s = text
+    toks = []
+    i, n = 0, len(s)
+    while i < n:
+        c = s[i]
+        if c == "[":
+            j = s.find("]", i)
+            if j < 0:
+                raise Untokenizable(text)
+            body = s[i + 1:j]
+            if body[:1] in "$><!":
+                toks.append(ftok("D", body[0], el=body[1:]))
+            elif body[:1] == "#":
+                name, sep, ann = body[1:].partition(";")
+                if not re.fullmatch(r"\w+", name):
+                    raise Untokenizable(text)
+                toks.append(ftok("A", "[#" + name + "]", a=parse_entries(ann) if sep else [], el=name))
+            else:
+                core, sep, ann = body.partition(";")
+                el, ar, ch, hc = _parse_bracket_atom("[" + core + "]")
+                toks.append(ftok("A", "[" + core + "]", a=parse_entries(ann) if sep else [], el=el, ar=ar, ch=ch, hc=hc))
+            i = j + 1
+        elif c in ".-=#$:":
+            toks.append(ftok("B", c))
+            i += 1
+        elif c == "%":
+            m = re.match(r"%(\d\d)(?!\d)", s[i:])
+            if not m:
+                raise Untokenizable(text)
+            toks.append(ftok("R", "%", int(m.group(1))))
+            i += 3
+        elif c.isdigit():
+            toks.append(ftok("R", "d", int(c)))
+            i += 1
+        elif c in "()":
+            toks.append(ftok(c))
+            i += 1
+        elif c in "/\\":
+            toks.append(ftok("Z", c))
+            i += 1
+        else:
+            two = s[i:i + 2]
+            if two in ("Cl", "Br"):
+                toks.append(ftok("A", two, el=two, hc=-2))
+                i += 2
+            elif c in _ORGANIC:
+                toks.append(ftok("A", c, el=c, hc=-2))
+                i += 1
+            elif c in _AROM:
+                toks.append(ftok("A", c, el=c.upper(), ar=True, hc=-2))
+                i += 1
+            else:
+                raise Untokenizable(text)
+    return toks
